@@ -847,7 +847,7 @@ func (g *gen) tree(depth int, objects, sideEffects bool) *expr {
 
 // ---------- running a case ----------
 
-const prelude = `var log = [], r, st, a, b, c; var OPV = Object.prototype.valueOf, OPT = Object.prototype.toString; var ORIG = {'Number.prototype.valueOf': Number.prototype.valueOf, 'Number.prototype.toString': Number.prototype.toString, 'String.prototype.valueOf': String.prototype.valueOf, 'String.prototype.toString': String.prototype.toString, 'Boolean.prototype.valueOf': Boolean.prototype.valueOf, 'Boolean.prototype.toString': Boolean.prototype.toString};`
+const prelude = `var log = [], r, st, a, b, c; function __set_a(x){ a = x; } function __set_b(x){ b = x; } function __set_c(x){ c = x; } var OPV = Object.prototype.valueOf, OPT = Object.prototype.toString; var ORIG = {'Number.prototype.valueOf': Number.prototype.valueOf, 'Number.prototype.toString': Number.prototype.toString, 'String.prototype.valueOf': String.prototype.valueOf, 'String.prototype.toString': String.prototype.toString, 'Boolean.prototype.valueOf': Boolean.prototype.valueOf, 'Boolean.prototype.toString': Boolean.prototype.toString};`
 
 func (g *gen) readVal(v otto.Value) string {
 	switch {
@@ -878,10 +878,20 @@ func (g *gen) readVal(v otto.Value) string {
 // how a primitive initial value reaches the variable: as literal text or through Otto.Set with a Go representation
 func (g *gen) setVar(name string, p prim, src *strings.Builder) string {
 	r := g.env.Rng
+	pickRoute := func() int {
+		if r.Intn(2) == 0 {
+			return 0
+		}
+		return r.Intn(numRoutes)
+	}
 	if gv, ok := g.force[name]; ok {
 		delete(g.force, name)
-		if err := g.vm.Set(name, gv); err == nil {
-			return fmt.Sprintf("%s:=Set(%T %#v)", name, gv, gv)
+		inj, isInj := gv.(injection)
+		if !isInj {
+			inj = injection{gv: gv, named: r.Intn(3) == 0, route: pickRoute()}
+		}
+		if desc, err := enterAny(g.vm, name, inj.gv, inj.named, inj.route, src); err == nil {
+			return name + ":=" + desc
 		}
 	}
 	if r.Intn(3) == 0 {
@@ -935,15 +945,15 @@ func (g *gen) setVar(name string, p prim, src *strings.Builder) string {
 					add(uint(f), "uint")
 				}
 			}
-			if float64(float32(f)) == f {
+			if float64(float32(f)) == f && f32ok(float32(f)) {
 				add(float32(f), "float32")
 			}
 			i := r.Intn(len(cands))
 			gv, how = cands[i], names[i]
 		}
 		if how != "" {
-			if err := g.vm.Set(name, gv); err == nil {
-				return fmt.Sprintf("%s:=Set(%s %#v)", name, how, gv)
+			if desc, err := enterAny(g.vm, name, gv, r.Intn(3) == 0, pickRoute(), src); err == nil {
+				return name + ":=" + desc
 			}
 		}
 	}
@@ -1106,8 +1116,12 @@ func (g *gen) goNumber() (interface{}, float64) {
 		v := uint(pick(0, 9007199254740991, 1, 4294967296, 4294967295, 2147483648))
 		return v, float64(v)
 	default:
-		v := Pick(r, []float32{0, float32(math.Copysign(0, -1)), 1.5, -1.5, 16777216, 16777217, float32(math.Inf(1)), float32(math.NaN()), 3.4028235e38, 1e-45, 0.1, -2147483648, 4294967296})
-		return v, float64(v)
+		for {
+			v := Pick(r, []float32{0, float32(math.Copysign(0, -1)), 1.5, -1.5, 16777216, 16777217, float32(math.Inf(1)), float32(math.NaN()), 3.4028235e38, 1e-45, 0.1, -2147483648, 4294967296})
+			if f32ok(v) {
+				return v, float64(v)
+			}
+		}
 	}
 }
 
@@ -1302,7 +1316,7 @@ func (g *gen) reprOperand(n int64, vs *[3]value, slot int) *expr {
 				add(uint32(n))
 			}
 		}
-		if float64(float32(f)) == f {
+		if float64(float32(f)) == f && f32ok(float32(f)) {
 			add(float32(f))
 		}
 		add(f)
@@ -1376,6 +1390,161 @@ func (g *gen) reprCase() ([3]value, *expr) {
 		if r.Intn(6) == 0 { // feed the result on: int-kinded results as operands of the next operator
 			e = bin(Pick(r, []int{4, 3, 2, 0, 1, 15, 13}), e, g.reprOperand(Pick(r, []int64{1, 2, -2, 3, 0}), &vs, 2))
 		}
+	}
+	return vs, e
+}
+
+// a Go scalar of every kind, by every route into a Value, under every conversion and operator
+func (g *gen) goEntryCase() ([3]value, *expr) {
+	r := g.env.Rng
+	vs := g.vars(false, false)
+	gv, p := g.kindValue()
+	vs[0] = pv(p)
+	g.force = map[string]interface{}{"a": injection{gv: gv, named: r.Intn(2) == 0, route: r.Intn(numRoutes)}}
+	x := evar(0)
+	other := func() *expr {
+		if r.Intn(3) == 0 {
+			gv2, p2 := g.kindValue()
+			vs[1] = pv(p2)
+			g.force["b"] = injection{gv: gv2, named: r.Intn(2) == 0, route: r.Intn(numRoutes)}
+			return evar(1)
+		}
+		return lit(pv(Pick(r, corePrims)))
+	}
+	var e *expr
+	switch r.Intn(11) {
+	case 0, 1, 10: // ToBoolean contexts
+		switch r.Intn(5) {
+		case 0:
+			e = un(3, x)
+		case 1:
+			e = un(8, x)
+		case 2:
+			e = bin(21, x, lit(str("rhs")))
+		case 3:
+			e = bin(22, x, lit(str("rhs")))
+		default:
+			e = cond(x, lit(str("T")), lit(str("F")))
+		}
+	case 2, 3:
+		e = un(r.Intn(13), x)
+	case 4, 5, 6:
+		e = bin(r.Intn(19), x, other())
+	case 7:
+		e = bin(r.Intn(19), other(), x)
+	case 8:
+		e = bin(Pick(r, []int{21, 22, 23}), un(3, un(3, x)), cmpd(r.Intn(11), 0, other()))
+	default:
+		e = bin(23, inc(r.Intn(2) == 0, r.Intn(2) == 0, 0), cond(x, x, un(3, x)))
+	}
+	return vs, e
+}
+
+// the same values read back through the Go API
+func (g *gen) apiCase() {
+	r := g.env.Rng
+	gv, p := g.kindValue()
+	var src strings.Builder
+	desc, err := enterAny(g.vm, "a", gv, r.Intn(2) == 0, r.Intn(numRoutes), &src)
+	if err != nil {
+		return
+	}
+	if o := RunJS(g.vm, src.String()); o.Err != nil || o.Panic != nil {
+		return
+	}
+	v, err := g.vm.Get("a")
+	if err != nil {
+		return
+	}
+	out := Guard(func() (otto.Value, error) { return v, nil })
+	_ = out
+	b, e1 := v.ToBoolean()
+	f, e2 := v.ToFloat()
+	i, e3 := v.ToInteger()
+	s, e4 := v.ToString()
+	if e1 != nil || e2 != nil || e3 != nil || e4 != nil {
+		g.env.Add("CPin 0 2", sanitize(fmt.Sprintf("api a:=%s  ==>  errors %v %v %v %v", desc, e1, e2, e3, e4)), "go-api", true)
+		return
+	}
+	g.env.Add(fmt.Sprintf("CApi %s %s %s %s %s", p.coq(), Cbool(b), Cdouble(f), Cz(i), Cstr(s)),
+		sanitize(fmt.Sprintf("api a:=%s %s; Value.ToBoolean/ToFloat/ToInteger/ToString  ==>  %v %v %d %q", desc, src.String(), b, f, i, s)), "go-api", true)
+}
+
+// objects whose two conversion methods are both observable (Date objects, plain objects, Number/String/Boolean
+// wrappers with overridden methods) under every operator that calls ToPrimitive, with each hint
+func (g *gen) toPrimCase() ([3]value, *expr) {
+	r := g.env.Rng
+	vs := g.vars(false, false)
+	g.nextID++
+	o := &obj{id: g.nextID, fproto: -1}
+	scripted := func() meth {
+		m := meth{present: true, setv: -1, ret: retPrim}
+		switch r.Intn(8) {
+		case 0:
+			m.ret = retObj
+		case 1:
+			m.present = false
+		default:
+			m.p = Pick(r, []prim{pNum(1), pNum(2), pStr("1"), pStr("2"), pStr("x"), pBool(true), pNum(0), pStr(""), pNull(), pUndef(), pNum(math.NaN()), pStr("10"), pNum(10)})
+		}
+		return m
+	}
+	o.vo, o.ts = scripted(), scripted()
+	switch r.Intn(6) {
+	case 0, 1, 2:
+		o.cls, o.base, o.chain = 1, "new Date(0)", []int64{84, 90}
+	case 3:
+		o.base, o.chain = "{}", []int64{90}
+	default:
+		q := func(p prim) meth { return meth{present: true, quiet: true, setv: -1, ret: retPrim, p: p} }
+		switch r.Intn(3) {
+		case 0:
+			o.cls, o.base, o.chain = 6, "new Number(5)", []int64{96, 90}
+			g.wproto = &obj{id: 96, jsname: "Number.prototype", chain: []int64{90}, fproto: -1, vo: q(pNum(5)), ts: q(pStr("5"))}
+		case 1:
+			o.cls, o.base, o.chain = 7, "new String(\"12\")", []int64{97, 90}
+			g.wproto = &obj{id: 97, jsname: "String.prototype", chain: []int64{90}, fproto: -1, vo: q(pStr("12")), ts: q(pStr("12"))}
+		default:
+			o.cls, o.base, o.chain = 8, "new Boolean(false)", []int64{98, 90}
+			g.wproto = &obj{id: 98, jsname: "Boolean.prototype", chain: []int64{90}, fproto: -1, vo: q(pBool(false)), ts: q(pStr("false"))}
+		}
+		if r.Intn(2) == 0 { // only one of the two overridden
+			if r.Intn(2) == 0 {
+				o.vo = meth{inherit: true}
+			} else {
+				o.ts = meth{inherit: true}
+			}
+		}
+	}
+	g.objs = append(g.objs, o)
+	x := g.operand(value{o: o}, &vs, 0)
+	p := func() *expr {
+		return g.operand(pv(Pick(r, []prim{pNum(1), pNum(2), pStr("1"), pStr("2"), pStr("x"), pBool(true), pBool(false), pNum(0), pStr(""), pNull(), pUndef(), pNum(10), pStr("10"), pNum(5), pStr("12"), pStr("5"), pStr("false")})), &vs, 1)
+	}
+	var e *expr
+	switch r.Intn(12) {
+	case 0, 1:
+		e = bin(Pick(r, []int{11, 12}), x, p())
+	case 2:
+		e = bin(Pick(r, []int{11, 12}), p(), x)
+	case 3:
+		e = bin(0, x, p())
+	case 4:
+		e = bin(0, p(), x)
+	case 5:
+		e = bin(Pick(r, []int{15, 16, 17, 18}), x, p())
+	case 6:
+		e = bin(Pick(r, []int{15, 16, 17, 18}), p(), x)
+	case 7:
+		e = bin(Pick(r, []int{1, 2, 3, 4, 5, 6, 7, 8, 9, 10, 13, 14}), x, p())
+	case 8:
+		e = un(Pick(r, []int{0, 1, 2, 3, 6, 7, 8, 9, 10, 11, 12, 4}), x)
+	case 9:
+		e = bin(19, x, lit(g.object(false)))
+	case 10:
+		e = bin(Pick(r, []int{0, 11, 15, 1}), x, x)
+	default:
+		e = cmpd(r.Intn(11), 1, x)
 	}
 	return vs, e
 }
@@ -1599,6 +1768,20 @@ func runC05(env *Env) {
 	}
 	g.intRepr(9007199254740993, 0)
 	g.intRepr(60032052788413712, 1)
+	{ // class 9: a number held as a Go float32 is printed with float32-shortest digits
+		Must(g.vm.Set("__n", nF32(0.1)))
+		o := RunJS(g.vm, `String(__n) + "|" + (__n === 0.10000000149011612)`)
+		state := 2
+		if o.Err == nil && o.Panic == nil {
+			switch o.Val.String() {
+			case "0.1|true":
+				state = 0
+			case "0.10000000149011612|true":
+				state = 1
+			}
+		}
+		g.env.Add(fmt.Sprintf("CPin 9 %d", state), sanitize(fmt.Sprintf("[type nF32 float32; __n:=Set(nF32(0.1))] String(__n) + \"|\" + (__n === 0.10000000149011612)  ==>  %v", o.Val)), "pinned", true)
+	}
 	for env.Count() < env.N {
 		if r.Intn(40) == 0 {
 			n := int64(1)<<53 + r.Int63n(int64(1)<<62)>>uint(r.Intn(10))
@@ -1627,6 +1810,20 @@ func runC05(env *Env) {
 				}
 				g.runCase(vs, bin(op, a, b), "core-binary", true)
 			}
+			continue
+		}
+		if r.Intn(12) == 0 {
+			vs, e := g.goEntryCase()
+			g.runCase(vs, e, "go-entry", true)
+			continue
+		}
+		if r.Intn(40) == 0 {
+			g.apiCase()
+			continue
+		}
+		if r.Intn(14) == 0 {
+			vs, e := g.toPrimCase()
+			g.runCase(vs, e, "toprim", true)
 			continue
 		}
 		if r.Intn(40) == 0 { // ToString (9.8.1) of whole doubles from 2^53 up: shortest digits, not the exact integer
@@ -1658,7 +1855,7 @@ func runC05(env *Env) {
 			g.runCase(vs, e, "whole-tostring", true)
 			continue
 		}
-		if r.Intn(8) == 0 { // every operator over integers in every internal representation
+		if r.Intn(6) == 0 { // every operator over integers in every internal representation
 			vs, e := g.reprCase()
 			g.runCase(vs, e, "repr", true)
 			continue
